@@ -336,6 +336,23 @@ func RandSchedule(r *Rand, tasks int, meanGap int, n int) plan.Schedule {
 	return s
 }
 
+// PickSchedule draws a schedule that matters only when the code under test starts goroutines of
+// its own (they are simulated tasks): which runnable task runs next, mostly until it blocks or ends,
+// sometimes preempted after a few hundred yields.
+func PickSchedule(r *Rand) plan.Schedule {
+	var s plan.Schedule
+	fine := r.P(1, 4)
+	for i := 0; i < 40; i++ {
+		gap := 1 << 30
+		if fine && r.P(1, 2) {
+			gap = 20 + r.Intn(3000)
+		}
+		s.Gaps = append(s.Gaps, [2]int{gap, r.Intn(64)})
+	}
+	s.After = "cycle"
+	return s
+}
+
 func RandStalls(r *Rand, maxYield int64) [][2]int64 {
 	n := r.Range(1, 4)
 	var st [][2]int64
